@@ -9,3 +9,4 @@ import IsoVerif.Lemmas.PicoRerun
 import IsoVerif.Lemmas.PicoSem
 import IsoVerif.Lemmas.PicoStage2
 import IsoVerif.Lemmas.PicoInc8
+import IsoVerif.Lemmas.PicoQuiet
